@@ -28,7 +28,8 @@ pub struct Discharge { pub txn_id: TransactionId, pub fail: Option<bool> }
 pub uninterp spec fn enc_discharge(d: Discharge) -> Result<Payload, SerErr>;
 #[verifier::external_body]
 pub fn encode_discharge(d: &Discharge) -> (r: Result<Payload, SerErr>) ensures r == enc_discharge(*d) { unimplemented!() }
-pub const MESSAGE_FORMAT: u32 = 0;
+//@@ type file=fe2o3-amqp-types/src/messaging/format/mod.rs kind=const name=MESSAGE_FORMAT
+//@@ end
 pub enum AmqpError { IllegalState, Other }
 pub struct Transfer { pub handle: Handle, pub delivery_id: Option<u32>, pub delivery_tag: Option<DeliveryTag>, pub message_format: Option<u32>, pub settled: Option<bool>, pub more: bool,
     pub rcv_settle_mode: Option<u8>, pub state: Option<OtherState>, pub resume: bool, pub aborted: bool, pub batchable: bool }
